@@ -119,8 +119,8 @@ parameters: Some(p),
 if m == \\$test =>
 if vx_cow_eq(m, $test) =>
 //@sub R40 count=*
-Ok\\(w\\) => wants == w,
-Ok(w) => vx_eq(&wants, &w),
+\\bwants == w\\b
+vx_eq(&wants, &w)
 //@sub T10 count=*
 varlink::map_context!\\(\\)
 map_context!()
